@@ -13,4 +13,6 @@ CONSTANTS Types <- AllTypes
           CaseTypes = {1, 2, 3, 4, 5, 6}
           HistTypesMeta = {"Directory", "File", "Symlink"}
           HistTypesSize = {"File", "Raw", "Symlink", "Directory"}
+          CtorSalts = {@SALT@}
+          CtorRows = 16
 INVARIANTS Emit GProps
